@@ -518,6 +518,11 @@ class Runner(object):
                         if len(cp[0]) != len(src[0]):
                             problems.append("cross-file copy of %s %r: %d tokens, source %d" % (kind, x.name, len(cp[0]), len(src[0])))
                             continue
+                        if dups and not keep:
+                            # ids inside the source are not unique (an earlier kept-id copy inside this file - the recorded
+                            # finding): renewing them renames links by ONE old-id -> new-id table, which is ambiguous, and
+                            # members named by such an id change their place; only the size is compared
+                            continue
                         ren = {}
                         names_at = self.name_positions(src[0])
                         for k, (a, b) in enumerate(zip(src[0], cp[0])):
